@@ -30,8 +30,9 @@ Finding of this check on the pinned tree, since repaired in /repo (c2100c2; `fix
       and field:class-in events) and CHAINS (alter_class on the first envelope).  The TTL, the other header field
       among the TSIG variables, IS digested from the wire (mutant tsig-ttl-not-digested = seeded change C11-2).
 
-TV srv  `tsig record server`: a real dns.Server with a key table on an in-memory TCP listener (TsigSecret) and an in-memory
-        datagram socket (TsigProvider); 2-5 transactions back to back on every TCP connection, datagrams one by one;
+TV srv  `tsig record server`: real dns.Servers on in-memory TCP listeners, one per configuration (TsigSecret with the key /
+        EMPTY / without the request's key; TsigProvider; provider over a contradicting table; no TSIG configuration at all =
+        recorded, not judged) and an in-memory datagram socket (TsigProvider); requests under two keys; 2-5 transactions back to back on every TCP connection, datagrams one by one;
         requests signed (5 algorithms) / signed with a wrong secret / unsigned; handlers answering with one message, with
         2-4 messages (w.TsigTimersOnly(true) after each) or with Transfer.Out -> Trace_Tsig restarts the session at every
         request -> `tsig judge`: TsigStatus seen by the handler = the specification's verdict on the request; every response's
@@ -48,6 +49,7 @@ Mutants (checks/mutants/C11, each must give exit 1):
   timers-only-ignored           GEN (timers-only vectors), CHAINS stay green (self-consistent) -- GEN is what bites
   tsig-ttl-not-digested         TV (bit events on the 32 TTL bits, field:ttl-1), CHAINS (alter_ttl on the first envelope)
   tsig-class-not-digested       (reverts fix c2100c2) TV (16 class bits, field:class-in), CHAINS (alter_class)
+  server-empty-table-no-provider (seeded change C11-8) TV srv (tsig/verify:accepts-invalid:unknown-key:server, "empty table" server)
   server-timersonly-not-reset   (seeded change C11-6 = C15-3) TV srv (tsig/verify:accepts-invalid:mac:server-out on the first
                                 response of a transaction that follows a multi-message answer on the same TCP connection)
 """
@@ -161,6 +163,8 @@ def run(ctx):
         "the library's secret table is keyed by spelling: acceptance of a valid MAC is asserted when the key name on the wire is "
         "spelled as in the table, or through TsigVerify (one secret); rejection is never a violation of the statement",
         "BADSIG/BADKEY responses (unsigned by RFC 8945 5.3.2) are outside the universe",
+        "a dns.Server with neither TsigSecret nor TsigProvider verifies nothing and TsigStatus() stays nil for signed requests: "
+        "outside the statement (no TSIG configured); counted in the evidence notes, not judged",
     ]
     return ctx.finish(rule="chains: every (L<=4, <=2 faults) behaviour of MC_Tsig; vectors: one per TLC state of Gen_Tsig "
                       "(distinct = distinct parameter tuples); events: one per real verification of an altered message "
